@@ -809,3 +809,177 @@ func linksOverwrittenOnlyWhenOpened(c *Ctx, r *Report, rule string) {
 	})
 	r.Floor(rule, "stores to the decoded block's link lists in DecryptLinks", nst, 2)
 }
+
+// validatorRefusesOnlyOnFixedAttributes: the per-candidate validation of a merge may refuse an entry only on
+// attributes that Append fixes for every entry it makes (presence, hash, log id, version, key, signature,
+// identity, clock) or through the access controller and the signature check. A condition in the validator
+// that reads an attribute Append leaves to the caller or to the history — the table below — refuses entries
+// Append produces.
+var callerControlledEntryFields = map[string]string{
+	"Payload":        "any byte string, the empty one included, is appendable",
+	"Next":           "empty for the first entry of a log",
+	"Refs":           "empty unless the log is long enough for skip references",
+	"AdditionalData": "absent unless a link key is configured",
+}
+
+func validatorRefusesOnlyOnFixedAttributes(c *Ctx, r *Report, rule string) {
+	p := c.P
+	join := p.FuncI("", "IPFSLog", "Join")
+	entT := p.Named("entry", "Entry")
+	entI := p.Named("iface", "IPFSLogEntry")
+	isEntry := func(t types.Type) bool {
+		if t == nil {
+			return false
+		}
+		if pt, ok := t.Underlying().(*types.Pointer); ok {
+			t = pt.Elem()
+		}
+		nt := namedOf(t)
+		return nt != nil && (nt == entT || nt == entI)
+	}
+	// fields read (transitively, first-party callees, bounded) by a method of the entry
+	memo := map[*Fn]map[string]bool{}
+	var reads func(fn *Fn, depth int) map[string]bool
+	reads = func(fn *Fn, depth int) map[string]bool {
+		if m, ok := memo[fn]; ok {
+			return m
+		}
+		out := map[string]bool{}
+		memo[fn] = out
+		if fn.Body == nil || depth > 3 {
+			return out
+		}
+		ast.Inspect(fn.Body, func(n ast.Node) bool {
+			switch x := n.(type) {
+			case *ast.SelectorExpr:
+				if v, _ := p.FieldSel(fn, x); v != nil && callerControlledEntryFields[v.Name()] != "" {
+					if st, ok := entT.Underlying().(*types.Struct); ok {
+						for i := 0; i < st.NumFields(); i++ {
+							if st.Field(i) == v {
+								out[v.Name()] = true
+							}
+						}
+					}
+				}
+			case *ast.CallExpr:
+				if cf := p.Callee(fn, x); cf != nil && p.firstParty(cf.Pkg()) {
+					callee := p.ByObj[cf]
+					if callee == nil {
+						if sig, ok := cf.Type().(*types.Signature); ok && sig.Recv() != nil && isEntry(sig.Recv().Type()) {
+							callee = p.FuncOpt("entry", "Entry", cf.Name())
+						}
+					}
+					if callee != nil {
+						for f := range reads(callee, depth+1) {
+							out[f] = true
+						}
+					}
+				}
+			}
+			return true
+		})
+		return out
+	}
+	// the validator functions
+	vfns := map[*Fn]bool{}
+	var lits func(fn *Fn)
+	lits = func(fn *Fn) {
+		for _, l := range fn.Lits {
+			if g, ok := p.parent[p.parent[ast.Node(l.Lit)]].(*ast.GoStmt); ok && g != nil {
+				vfns[l] = true
+			} else if _, ok := p.parent[ast.Node(l.Lit)].(*ast.CallExpr); ok {
+				if _, isGo := p.parent[p.parent[ast.Node(l.Lit)]].(*ast.GoStmt); isGo {
+					vfns[l] = true
+				}
+			}
+			lits(l)
+		}
+	}
+	lits(join)
+	for changed, round := true, 0; changed && round < 3; round++ {
+		changed = false
+		for fn := range vfns {
+			walkNoLit(fn.Body, func(n ast.Node) bool {
+				call, ok := n.(*ast.CallExpr)
+				if !ok {
+					return true
+				}
+				cf := p.Callee(fn, call)
+				if cf == nil {
+					return true
+				}
+				callee := p.ByObj[cf]
+				if callee == nil || callee.Pkg.PkgPath != join.Pkg.PkgPath || vfns[callee] {
+					return true
+				}
+				sig := cf.Type().(*types.Signature)
+				for i := 0; i < sig.Params().Len(); i++ {
+					if isEntry(sig.Params().At(i).Type()) {
+						vfns[callee] = true
+						changed = true
+					}
+				}
+				return true
+			})
+		}
+	}
+	var names []string
+	nconds := 0
+	for fn := range vfns {
+		names = append(names, fn.Name)
+	}
+	sort.Strings(names)
+	r.Tables["merge_validator_functions"] = names
+	r.Floor(rule, "functions validating a merge candidate", len(vfns), 1)
+	for _, name := range names {
+		var fn *Fn
+		for f := range vfns {
+			if f.Name == name {
+				fn = f
+			}
+		}
+		walkNoLit(fn.Body, func(n ast.Node) bool {
+			is, ok := n.(*ast.IfStmt)
+			if !ok {
+				return true
+			}
+			nconds++
+			bad, via := "", ""
+			ast.Inspect(is.Cond, func(m ast.Node) bool {
+				call, ok := m.(*ast.CallExpr)
+				if !ok || bad != "" {
+					return true
+				}
+				cf := p.Callee(fn, call)
+				if cf == nil || !p.firstParty(cf.Pkg()) {
+					return true
+				}
+				sig, ok := cf.Type().(*types.Signature)
+				if !ok || sig.Recv() == nil || !isEntry(sig.Recv().Type()) {
+					return true
+				}
+				if cf.Name() == "Verify" {
+					return true // the signature check reads every signed field by definition
+				}
+				m2 := p.FuncOpt("entry", "Entry", cf.Name())
+				if m2 == nil {
+					return true
+				}
+				var fs []string
+				for f := range reads(m2, 0) {
+					fs = append(fs, f)
+				}
+				sort.Strings(fs)
+				if len(fs) > 0 {
+					bad, via = fs[0], cf.Name()
+				}
+				return true
+			})
+			r.Check(bad == "", rule, r.Key(rule, fn, "condition", ""), is.Cond.Pos(),
+				"the condition reads nothing of the candidate that Append leaves to the caller or to the history",
+				fmt.Sprintf("the merge validation branches on `%s`, which reads the candidate's %s through %s — %s, so entries made by Append are refused (and with them every merge that would bring them)", types.ExprString(is.Cond), bad, via, callerControlledEntryFields[bad]))
+			return true
+		})
+	}
+	r.Floor(rule, "conditions in the merge validation", nconds, 3)
+}
